@@ -16,6 +16,7 @@ not reported again here.
 from __future__ import annotations
 
 import logging
+import os
 
 import numpy as np
 
@@ -433,7 +434,7 @@ def _lte(r, eos, Tn, tol, hyd, tm, alN, mu, nu, vJ):
     r.detail["lte"] = [lf, lt]
     sent_f, sent_t = lf in (0.0, 1.0), lt in (0.0, 1.0)
     if sent_f or sent_t:
-        r.tag(f"lte-sentinel-{lf:g}" if sent_f else "lte-root", )
+        r.tag(f"lte-sentinel-{lf:g}" if sent_f else "lte-root")
         if lf == lt:
             r.true("lte:sentinel", True)
             return
@@ -488,14 +489,14 @@ def run(ctx) -> None:
         if ctx.only and ctx.only != name:
             continue
         cs = gen(ctx.tier)
-        sel = __import__("os").environ.get("C15_SELECT")  # debugging aid: substring filter on case ids
+        sel = os.environ.get("C15_SELECT")  # debugging aid only ('|'-separated substrings of case ids); unset in real runs
         if sel:
             cs = [c for c in cs if any(x in c["id"] for x in sel.split("|"))]
         ctx.run_lattice(name, cs, fn, timeout=1500)
         ctx.note("eos_cases", len(cs))
         ctx.note("velocities_per_case", 16)
-    if not ctx.only and not __import__("os").environ.get("C15_SELECT"):
-        ctx.exhaustive = True
+    if not ctx.only and not os.environ.get("C15_SELECT"):
+        ctx.exhaustive = True  # every lattice point x tolerance x velocity label was run
 
 
 def replay(rep: dict) -> dict:
